@@ -182,7 +182,21 @@ class RecipeGen {
 			if (elseChain && i + 1 < n) { s.list.push_back(-2); open++; } else s.list.push_back(-3);
 		}
 		for (size_t i = 0; i < open; i++) s.list.push_back(-3);
-		add(s);
+		int chainVar = add(s);
+		// sometimes the chain variable is consumed by further muxes on the same selector that take it at their "true" input
+		// (y = other; IF (sel == k) y = t) or as their default (mergeBinaryMuxChain must only continue through the default input)
+		if (rng.chance(1, 2)) {
+			size_t extra = 1 + rng.below(2); int cur = chainVar;
+			for (size_t e = 0; e < extra; e++) {
+				size_t v = rng.below(size_t(1) << sw); std::string bits; for (size_t b = sw; b-- > 0;) bits.push_back(((v >> b) & 1) ? '1' : '0');
+				Step c{.kind = "const", .width = sw, .str = bits}; int ci = add(c);
+				Step q{.kind = "eq", .width = 0, .a = sel, .b = ci}; int qi = add(q);
+				bool viaTrue = rng.chance(2, 3);
+				Step y{.kind = "cond", .width = cw, .a = viaTrue ? valueOf(cw) : cur};
+				y.list = {-1, qi, -4, viaTrue ? cur : valueOf(cw), -3};
+				cur = add(y);
+			}
+		}
 	}
 
 	// Pattern seed: a value wider than one or two machine words combined with a word-structured constant (no-op detection, constant
